@@ -579,6 +579,11 @@ func runC20(c *run.Ctx, s *kit.Summary) {
 		flush(false)
 	}
 	flush(true)
+	rst := &kit.Stream{Name: "c20.register"}
+	for i := 0; i < c.N(20, 400); i++ {
+		registerScenario(r, s, rst, i)
+	}
+	rst.Diff(c.Driver, s)
 	wst := &kit.Stream{Name: "c20.wide_series"}
 	wideDone(wst)
 	wst.Diff(c.Driver, s)
